@@ -226,6 +226,13 @@ theorem b106_silent (e : Env) (c : CallView) (hc : e.call? = some c)
   simp only [hc]
   exact go_silent c.keywords h
 
+/-- **B106 looks at the keywords only**: two calls with the same keyword arguments are judged alike, whatever is called (a name, an attribute, the result of a
+call, a subscript, a lambda) and whatever the positional arguments are (seeded change C16-m15 skipped every call whose callee is not a dotted name) -/
+theorem b106_ignores_callee (e e' : Env) (c c' : CallView) (hc : e.call? = some c) (hc' : e'.call? = some c') (hk : c'.keywords = c.keywords) :
+    b106 e' = b106 e := by
+  unfold b106
+  simp only [hc, hc', hk]
+
 /-! ## B107: parameters are paired with their defaults from the right, positional-only parameters included -/
 
 /-- what decides B107 on one (parameter, default) pair: the default is a string literal and the parameter's name matches -/
